@@ -123,7 +123,7 @@ def extract(verbose=False):
         shutil.rmtree(work, ignore_errors=True)
 
 
-def _prune(keep=6):
+def _prune(keep=int(os.environ.get("JSV_CACHE_KEEP", "8"))):
     try:
         ents = [os.path.join(CACHE, e) for e in os.listdir(CACHE)]
         ents = [e for e in ents if os.path.isdir(e)]
